@@ -13,6 +13,7 @@ import (
 	"fmt"
 	"os"
 	"path/filepath"
+	"strings"
 	"sync"
 
 	req "github.com/imroc/req/v3"
@@ -85,6 +86,35 @@ func (g *gen) muxAresp(bodyLen, nFields int) *aresp {
 		a.setBody(g.rng, 0) // a 204 announces no length other than 0 (RFC 9110 8.6)
 	}
 	return a
+}
+
+// edgeCell: a response with one header line of exactly L bytes (without its CRLF), fields written plainly
+func (g *gen) edgeCell(L int, dump bool) *exch {
+	rng := g.rng
+	a := genAresp(rng, hk.Pick(rng, []int{0, 17, 300}), 0, false)
+	a.Code, a.Reason, a.Interim = 200, "OK", nil
+	name := hk.Pick(rng, []string{"X-Edge", "x-edge", "Set-Cookie"})
+	val := []byte(strings.Repeat("e", L-len(name)-2))
+	val[0], val[len(val)-1] = 'E', 'z'
+	edge := field{name, string(val)}
+	fs := append([]field{}, a.Fields...)
+	pos := rng.Intn(len(fs) + 1)
+	fs = append(fs[:pos], append([]field{edge}, fs[pos:]...)...)
+	a.Fields = fs
+	o := &h1opts{Framing: wire.FrCL, FrName: "cl"}
+	x := &exch{Proto: "h1", A: a, H1: o, Method: "GET", Mode: hk.Pick(rng, modes), SegK: hk.Pick(rng, []string{"one", "random", "small"}), Dump: dump, Pat: hk.Pick(rng, patterns)}
+	var w wbuilder
+	w.WriteString("HTTP/1.1 200 OK\r\n")
+	for _, f := range fs {
+		w.WriteString(f.Name + ": " + f.Value + "\r\n")
+	}
+	w.WriteString(fmt.Sprintf("Content-Length: %d\r\n\r\n", len(a.Body)))
+	x.hdrLen = w.Len()
+	w.WriteBody(a.Body, 0, len(a.Body))
+	x.wire, x.pieces = w.buf.Bytes(), w.pieces
+	x.segs = genSegs(rng, len(x.wire), x.SegK)
+	g.xs = append(g.xs, x)
+	return x
 }
 
 // upgradeCell: 101 Switching Protocols; whatever follows the head is handed to the caller as Body
@@ -381,6 +411,63 @@ func (g *gen) build() {
 	for i, n := 0, r.Scale(10, 100); i < n; i++ {
 		g.wins = append(g.wins, genWinScenario(rng, i))
 	}
+	// Q. round 6: interim responses x header-size limit: every head (interim, final) is within
+	//    MaxResponseHeaderBytes by itself (with room for one read-ahead buffer), together they exceed it
+	for i, n := 0, r.Scale(8, 80); i < n; i++ {
+		a := genAresp(rng, hk.Pick(rng, []int{0, 17, 600}), rng.Intn(3), false)
+		for !bodyAllowed(a.Code) || a.Code >= 300 && a.Code < 400 {
+			a = genAresp(rng, hk.Pick(rng, []int{0, 17, 600}), rng.Intn(3), false)
+		}
+		big := func(n int) string { return "<" + strings.Repeat("l", n) + ">; rel=preload" }
+		a.Interim = nil
+		for k, ni := 0, rng.Range(1, 4); k < ni; k++ {
+			a.Interim = append(a.Interim, interim{hk.Pick(rng, []int{103, 102, 100}), "Early Hints", []field{{"Link", big(rng.Range(2000, 3400))}}})
+		}
+		a.Fields = append(a.Fields, field{"X-Big", big(rng.Range(2000, 3400))})
+		x := g.h1(a, g.pickFraming(a), "GET", hk.Pick(rng, modes), hk.Pick(rng, segKinds), false)
+		x.Lim = 8192
+	}
+	// R. round 6: header lines whose length sits at the edges of the 4096-byte read buffer (a trailing CR as the
+	//    last byte of a full buffer), with the dumping line reader (Request.EnableDump) and without
+	for _, L := range scaleInts(r, []int{4093, 4094, 4095, 4096, 4097, 8190, 8191, 8192}, []int{4090, 4091, 4092, 4093, 4094, 4095, 4096, 4097, 4098, 4099, 8186, 8187, 8188, 8189, 8190, 8191, 8192, 8193, 8194, 12287, 12288}) {
+		for _, dump := range []bool{true, false} {
+			g.edgeCell(L, dump)
+		}
+	}
+	// S. round 6: HTTP/2 responses WITHOUT (and with) a declared length whose stream is cut before END_STREAM at
+	//    every point of the DATA sequence by each kind of connection / stream end: clean FIN, GOAWAY + FIN,
+	//    RST_STREAM.  A cut response must never be delivered as a complete one.
+	for i, n := 0, r.Scale(14, 140); i < n; i++ {
+		a := g.muxAresp(hk.Pick(rng, []int{1, 17, 600, 4096, 20000}), rng.Intn(3))
+		for !bodyAllowed(a.Code) || a.Code >= 300 && a.Code < 400 {
+			a = g.muxAresp(hk.Pick(rng, []int{1, 17, 600, 4096, 20000}), rng.Intn(3))
+		}
+		a.Interim = nil
+		full := g.h2(a, "GET", "stream", "one", i%3 == 0)
+		g.xs = g.xs[:len(g.xs)-1]
+		var data []h2data
+		for _, d := range full.H2.Data {
+			if d.Len > 0 {
+				d.End = false
+				data = append(data, d)
+			}
+		}
+		for j := 0; j <= len(data) && j <= 4; j++ { // the stream ends after j DATA frames (never the complete body + END_STREAM)
+			if j == len(data) && j > 0 {
+				// all the bytes but no END_STREAM: still a cut
+			}
+			for _, kind := range []string{"close", "goaway-close", "rst-cancel"} {
+				o := *full.H2
+				o.Data = append([]h2data{}, data[:j]...)
+				o.UseTrailers, o.HdrEnd, o.After, o.NData = false, false, kind, j
+				x := &exch{Proto: "h2", A: a, H2: &o, Method: "GET", Mode: hk.Pick(rng, modes), SegK: "one", Pat: hk.Pick(rng, patterns), Cut: true, DelayMs: 30}
+				for _, d := range o.Data {
+					x.CutAt += d.Len
+				}
+				g.xs = append(g.xs, x)
+			}
+		}
+	}
 	// K. output files as state across exchanges
 	for i, n := 0, r.Scale(16, 300); i < n; i++ {
 		g.files = append(g.files, genFileScenario(rng, i, filepath.Join(r.OutDir, "dl")))
@@ -576,7 +663,13 @@ func runC02(r *hk.Run) {
 		r.Count("segmentation:" + seg)
 		r.Count(fmt.Sprintf("interim-1xx:%d", len(x.A.Interim)))
 		if x.Cut {
-			r.Count("h1-cut")
+			r.Count(x.Proto + "-cut")
+		}
+		if x.Lim > 0 {
+			r.Count("h1-interim-x-header-limit")
+		}
+		if x.Dump {
+			r.Count("h1-dump-on")
 		}
 		if x.H2 != nil && (x.H2.After != "" || x.H2.Upload > 0) {
 			r.Count("h2-after-end:" + x.H2.After + fmt.Sprintf("/upload=%v", x.H2.Upload > 0))
@@ -625,6 +718,13 @@ func descs(xs []*exch) []interface{} {
 		out = append(out, x.desc())
 	}
 	return out
+}
+
+func scaleInts(r *hk.Run, quick, thorough []int) []int {
+	if r.Quick() {
+		return quick
+	}
+	return thorough
 }
 
 func lenClass(n int) string {
